@@ -10,6 +10,7 @@ import Vlsp.Model.Cache
 import Vlsp.Spec.LatestSpec
 import Vlsp.Spec.Ranges
 import Vlsp.Spec.NpmDenote
+import Vlsp.Spec.CratesDenote
 import Vlsp.Spec.RefEco
 import Vlsp.Model.Checker
 import Vlsp.Model.Claim
